@@ -252,6 +252,9 @@ def _run_point(case, ctx):
                 spec["extra"][col] = spec["extra"][col][::-1]
     if "Aux col" in spec["extra"]:
         spec["extra"]["Aux_col"] = spec["extra"].pop("Aux col")  # keys without blank (domain)
+    if fmt in ("csv", "excel") and case["seed"] % 3 == 0:
+        # a text column as instruments write it (segment / step names)
+        spec["extra"]["segment"] = [r.choice(["ads", "des", "hold", "dose_3", "equil"]) for _ in range(n)]
     route = r.choice(["df", "df_offset", "df_branchcol"]) if spec["extra"] else r.choice(["lists", "df", "df_perm"])
     try:
         iso = gen.build_point(spec, route)
@@ -292,10 +295,13 @@ def _run_point(case, ctx):
                     ctx.violation("%s/point/branch-assignment" % fmt, "adsorption/desorption assignment or order changed", a=x, b=y, layout=layout)
                     ok = False
                 continue
-            try:
-                same = all(abs(float(u) - float(v)) <= 0.5e-8 + 1e-12 * abs(float(u)) for u, v in zip(x, y))
-            except (TypeError, ValueError):
-                same = False
+            if all(isinstance(u, str) for u in x):
+                same = x == y
+            else:
+                try:
+                    same = all(abs(float(u) - float(v)) <= 0.5e-8 + 1e-12 * abs(float(u)) for u, v in zip(x, y))
+                except (TypeError, ValueError):
+                    same = False
             if not same:
                 ctx.violation("%s/point/data-column" % fmt, "a data column changed beyond the documented 8 decimals", col=c, a=x[:5], b=y[:5])
                 ok = False
